@@ -41,6 +41,40 @@ pub struct Out {
     pub event_every: u64,
     pub event_cap: u64,
     pub profile: String,
+    /// the operations the statement of the property under check speaks about; a tree that uses anything else is executed
+    /// (panics, budget) but its value is not asserted by this check
+    pub scope: Option<Scope>,
+}
+
+#[derive(Clone, Debug, Default)]
+pub struct Scope {
+    pub ops: Vec<String>,
+    pub fns: Vec<String>,
+}
+
+impl Scope {
+    pub fn from_job(job: &Value) -> Option<Scope> {
+        let sc = job.get("scope")?;
+        if !sc.is_object() { return None; }
+        let strs = |k: &str| -> Vec<String> { sc[k].as_array().map(|a| a.iter().filter_map(|x| x.as_str().map(String::from)).collect()).unwrap_or_default() };
+        Some(Scope { ops: strs("ops"), fns: strs("fns") })
+    }
+    pub fn covers(&self, t: &T, a: &crate::render::Asg) -> bool {
+        let op = |o: &str| self.ops.iter().any(|x| x == o);
+        match t {
+            T::Num(_) | T::Ans(_) | T::Zero(_) => true,
+            T::Const(_) => op("const"),
+            T::Neg(x) => op("neg") && self.covers(x, a),
+            T::Fact(x) => op("fact") && self.covers(x, a),
+            T::Deg(x) => op("deg") && self.covers(x, a),
+            T::Rad(x) => op("rad") && self.covers(x, a),
+            T::PSup(x, _) => op("pow") && self.covers(x, a),
+            T::Grp(k, x) => (k == "lp" || (k == "lf" && self.fns.iter().any(|f| f == "Floor")) || (k == "lc" && self.fns.iter().any(|f| f == "Ceil"))) && self.covers(x, a),
+            T::Call(_, p, args) => a.fns.get(p).map_or(false, |f| self.fns.iter().any(|x| x == f)) && args.iter().all(|x| self.covers(x, a)),
+            T::Bin(o, l, r) => op(o) && self.covers(l, a) && self.covers(r, a),
+            T::IMul(l, r) => op("mul") && self.covers(l, a) && self.covers(r, a),
+        }
+    }
 }
 
 #[derive(Default)]
@@ -277,12 +311,25 @@ pub fn replay_base(out: &mut Out, v: &Vocab, e: &str, b: &Beh, pols: &[Policy], 
     let has_ans = b.kinds.iter().any(|k| k == "ans");
     let dflt = [default_placeholder(e)];
     let phs: &[Val] = if has_ans { phs } else { &dflt };
+    // composites (spec/MCCompose.tla) are many: each takes a rotating window of three placeholders, so that the pool is covered across them
+    let window: Vec<Val>;
+    let phs: &[Val] = if b.raw.get("comp").is_some() && phs.len() > 3 {
+        let k = (out.stats.items as usize) % phs.len();
+        window = (0..3).map(|i| phs[(k + i * 5) % phs.len()].clone()).collect();
+        &window
+    } else { phs };
     for pol in pols {
         let r = match render(v, e, &b.kinds, pol) { Some(r) => r, None => continue };
+        // the properties quantify over inputs of at most 256 characters
+        if r.text.chars().count() > 256 { continue; }
         let ctx = json!({"toks": b.kinds, "verdict": b.verdict, "tree": b.raw.get("tree").cloned().unwrap_or(Value::Null)});
         let mut outs = Vec::new();
         for ph in phs {
+            // composites outside the statement's operations add nothing to this check (C01 executes them all)
+            if b.raw.get("comp").is_some() { if let (Some(t), Some(sc)) = (&b.tree, &out.scope) { if !sc.covers(t, &r.asg) { break; } } }
             let exp = match &b.tree {
+                Some(t) if out.scope.as_ref().map_or(false, |sc| !sc.covers(t, &r.asg)) =>
+                    crate::expect::Exp { res: Err(crate::refsem::Stop::Unspec("OutsideStatementOfProperty")), prec: Default::default(), ops: 0 },
                 Some(t) => expected(e, t, &r.asg, ph),
                 None => reject_exp(),
             };
